@@ -125,7 +125,7 @@ static int rr_atom(const struct rr_node *nd, const struct rr_subj *sj, int p)
 	case AT_BOL:
 		if (o == 0)
 			return sj->notbol ? -1 : p;
-		return before == '\n' ? p : -1;
+		return before == '\n' && o < sj->len ? p : -1;	/* not after the newline that ends the subject */
 	case AT_EOL:
 		if (o == sj->len)
 			return sj->noteol ? -1 : p;
